@@ -276,6 +276,89 @@ theorem elementR_ok {tag : UInt8} {r : Res Bytes} {x : Bytes} (h : elementR tag 
   · simp at h
   · simp at h
 
+theorem inline_ok {rb rk : Bytes → Res (List Val × Bytes)} {s mid tail : Bytes} {vs ws : List Val}
+    (hb : rb s = .ok (vs, mid)) (hk : rk mid = .ok (ws, tail)) :
+    inline rb rk s = .ok (vs ++ ws, tail) := by
+  simp [inline, hb, hk]
+
+/-! ### the alternative readers -/
+
+/-- `readASN1` (the common core of ReadASN1 / ReadASN1Element / ReadAnyASN1 / ReadAnyASN1Element / SkipASN1) on an
+    element the Builder wrote: tag, body and remainder are the written ones. -/
+theorem readASN1_back (tag : UInt8) (body pre t : Bytes) (h : CB.element tag body = .ok pre)
+    (hsz : body.length < 4294967290) :
+    ∃ e, CB.readASN1 (pre ++ t) = .ok e ∧ e.tag = tag ∧ e.body = body ∧ e.rest = t := by
+  have hb := readASN1Tag_back tag body pre t h hsz
+  unfold CB.readASN1Tag at hb
+  split at hb
+  · rename_i e he
+    split at hb
+    · simp at hb
+    · rename_i htag
+      simp only [Res.ok.injEq, Prod.mk.injEq] at hb
+      exact ⟨e, he, by simpa using htag, hb.1, hb.2⟩
+  · simp at hb
+  · simp at hb
+
+theorem consumed_append (pre t : Bytes) : consumed (pre ++ t) t = pre := by
+  simp [consumed]
+
+/-- what an alternative reader needs: the ASN.1 body passes `readASN1`'s uint32 guard; an ABSENT element
+    skipped by `SkipOptionalASN1` is followed by a byte different from its tag. -/
+def altReadable (a : Alt) (r : Res Bytes) (tail : Bytes) : Bool :=
+  match a with
+  | .skip _ => true
+  | .copy _ => true
+  | .elem _ b => decide (b.length < 4294967290)
+  | .any _ b => decide (b.length < 4294967290)
+  | .anyElem _ b => decide (b.length < 4294967290)
+  | .skipAsn1 _ b => decide (b.length < 4294967290)
+  | .skipOpt _ b => decide (b.length < 4294967290)
+  | .noSkipOpt tag => nextIsNot tag r tail
+  | .bitsBytes b => decide (b.length + 1 < 4294967290)
+
+theorem altRead_back (a : Alt) (r : Res Bytes) (x y tail : Bytes) (h : altSer a = .ok x) (hr : r = .ok y)
+    (ha : altReadable a r tail = true) : altRead a (x ++ (y ++ tail)) = .ok (altVal a, y ++ tail) := by
+  cases a with
+  | skip bs =>
+    simp only [altSer, Res.ok.injEq] at h; subst h
+    simp only [altRead, readBytes_append, altVal]
+  | copy bs =>
+    simp only [altSer, Res.ok.injEq] at h; subst h
+    simp only [altRead, readBytes_append, altVal]
+  | elem tag bs =>
+    simp only [altReadable, decide_eq_true_eq] at ha
+    obtain ⟨e, he, h1, _, h3⟩ := readASN1_back tag bs x (y ++ tail) h ha
+    simp only [altSer] at h
+    simp only [altRead, he, h1, ne_eq, not_true_eq_false, if_false, h3, consumed_append, altVal, elemBytes, h]
+  | any tag bs =>
+    simp only [altReadable, decide_eq_true_eq] at ha
+    obtain ⟨e, he, h1, h2, h3⟩ := readASN1_back tag bs x (y ++ tail) h ha
+    simp only [altRead, he, h1, h2, h3, altVal]
+  | anyElem tag bs =>
+    simp only [altReadable, decide_eq_true_eq] at ha
+    obtain ⟨e, he, h1, _, h3⟩ := readASN1_back tag bs x (y ++ tail) h ha
+    simp only [altSer] at h
+    simp only [altRead, he, h1, h3, consumed_append, altVal, elemBytes, h]
+  | skipAsn1 tag bs =>
+    simp only [altReadable, decide_eq_true_eq] at ha
+    simp only [altRead, readASN1Tag_back tag bs x (y ++ tail) h ha, altVal]
+  | skipOpt tag bs =>
+    simp only [altReadable, decide_eq_true_eq] at ha
+    simp only [altSer] at h
+    simp only [altRead, peekTag_element (y ++ tail) h, Bool.not_true, Bool.false_eq_true, if_false,
+      readASN1Tag_back tag bs x (y ++ tail) h ha, altVal]
+  | noSkipOpt tag =>
+    simp only [altSer, Res.ok.injEq] at h; subst h
+    simp only [altReadable] at ha
+    have := nextIsNot_ok ha hr
+    simp only [altRead, List.nil_append, this, Bool.not_false, if_true, altVal]
+  | bitsBytes bs =>
+    simp only [altReadable, decide_eq_true_eq] at ha
+    simp only [altSer, CB.addASN1BitString] at h
+    simp only [altRead, readASN1Tag_back 3 (0 :: bs) x (y ++ tail) h (by simpa using ha), ne_eq,
+      not_true_eq_false, if_false, altVal]
+
 theorem nested_ok {rb rk : Bytes → Res (List Val × Bytes)} {child rest tail : Bytes} {vs ws : List Val}
     (hb : rb child = .ok (vs, [])) (hk : rk rest = .ok (ws, tail)) :
     nested rb rk child rest = .ok (vs ++ ws, tail) := by
